@@ -11,7 +11,8 @@ def subharnesses(tier):
     subs = []
     if tier == 'quick':
         worlds = [('T1', 1, 3, LIMITS[:2], AFFS[:2] + AFFS[3:]),
-                  ('T2', 1, 3, LIMITS[:2], AFFS[:2])]
+                  ('T2', 1, 3, LIMITS[:2], AFFS[:2]),
+                  ('T3', 1, 3, [{'rack': 1, 'pod': 2}], AFFS[:1])]
     else:
         worlds = [('T1', 1, 3, LIMITS, AFFS), ('T2', 1, 3, LIMITS, AFFS),
                   ('T3', 1, 3, LIMITS[:3] + [{'pod': 2}], AFFS[:2]),
